@@ -36,7 +36,8 @@ Definition resume_pretxid (s : state) (t : tid) : option state :=
                 let id := next_nat (v_lasttx s) in
                 let th' := {| t_req := t_req th; t_pc := PTxid; t_postings := t_postings th; t_unb := t_unb th;
                               t_view := t_view th; t_entry := t_entry th; t_txid := Some id;
-                              t_granted := t_granted th; t_resp := None; t_gen := t_gen th |} in
+                              t_granted := t_granted th; t_resp := None; t_gen := t_gen th;
+                              t_cancelled := t_cancelled th |} in
                 let u1 := set_th t th' (of_state s) in
                 Some (to_state (gen s)
                   {| u_persisted := u_persisted u1; u_last := u_last u1; u_lasttx := Some id; u_pending := u_pending u1;
